@@ -100,6 +100,47 @@ impl<'a> DeclVisitor for Vis<'a> {
                 _ => continue,
             };
             let origin = format!("hist={} writer=v{} reader=v{} value={}", hist, w, r, v.show());
+            // the documented outcome table (Desert/Evolution.lean `expectedRead`) and the operational model
+            {
+                let impl_out = match crate::cases::impl_decode::<R>(&bytes) {
+                    Out::Ok(x) => format!("ok {}", x.canon()),
+                    Out::Err(k) => format!("err {}", k),
+                    Out::Panic(_) => "panic".to_string(),
+                };
+                let wn = W::rust_name();
+                let rn = R::rust_name();
+                let org = origin.clone();
+                let vtext = v.show();
+                self.q.push(Pending {
+                    req: format!("hist {} {} {}", wn, rn, vtext),
+                    check: Box::new(move |resp, c| {
+                        let parts: Vec<&str> = resp.split(" ## ").collect();
+                        if parts.len() != 3 {
+                            c.fail("harness", "corr", "hist|bad-response", org, resp.to_string());
+                            return;
+                        }
+                        let canon_of = |t: &str| -> String {
+                            if let Some(rest) = t.strip_prefix("ok ") {
+                                match crate::sexp::parse_all(rest).and_then(|l| l.first().and_then(|x| R::canon_sexp(x))) {
+                                    Some(cv) => format!("ok {}", cv),
+                                    None => format!("unparsable {}", t),
+                                }
+                            } else {
+                                t.to_string()
+                            }
+                        };
+                        let expected = canon_of(parts[0]);
+                        if expected == impl_out {
+                            c.stat("table-agree");
+                        } else {
+                            c.fail("table", "corr", &format!("{}>{}|table", wn, rn), format!("type={} origin={}", rn, org), format!("implementation {} documented outcome {}", impl_out, expected));
+                        }
+                        if parts[2] != "one-history" {
+                            c.fail("harness", "corr", "hist|not-one-history", org, resp.to_string());
+                        }
+                    }),
+                });
+            }
             // top level, with following data
             let suffix: Vec<u8> = (0..rng.below(4)).map(|_| *rng.pick(&[0u8, 1, 0x7f, 0xff])).collect();
             let mut buf = bytes.clone();
